@@ -194,13 +194,17 @@ def space_f(tier: str):
     methods = [("General",), ("Proportional",), ("First", 2, 0.25), ("First", 1, 0.0), ("Last", 2, 0.5), ("Last", 1, 0.0),
                ("Highest", 1), ("Highest", 2), ("Lowest", 1), ("Lowest", 3), ("Threshold", ">=", 0.5), ("Threshold", "<", 0.5),
                ("Threshold", "==", 0.25), ("Threshold", "!=", 0.0), ("Threshold", ">", 0.0), ("Threshold", "<=", 0.25)]
+    rows = rows + [(1.5, 0.25), (-0.75, 1.5)]
     for m in methods:
-        for df in (("Centroid", 16), ("WeightedAverage", "Automatic")):
+        for df in (("Centroid", 16), ("WeightedAverage", "Automatic"), ("Centroid", 16, "locked-inputs")):
+            locked = len(df) == 3
+            df = df[:2]
             if df[0] == "WeightedAverage":
                 out = R.out_var("o", terms=[R.shape("Constant", "lo", [0.25]), R.shape("Constant", "hi", [0.75])], aggregation=None, defuzzifier=df)
             else:
                 out = R.out_var("o", defuzzifier=df)
-            yield R.engine("F", [R.in_var("a"), R.in_var("b")], [out], [R.block("rb", rules, "Minimum", "Maximum", "Minimum", activation=m)]), rows
+            yield R.engine("F", [R.in_var("a", lock_range=locked), R.in_var("b", lock_range=locked)], [out],
+                           [R.block("rb", rules, "Minimum", "Maximum", "Minimum", activation=m)]), rows
 
 
 SPACES = {"A": space_a, "B": space_b, "C": space_c, "D": space_d, "E": space_e, "F": space_f}
